@@ -154,7 +154,7 @@ Lemma finish_opd_nolabels E top r keep code :
 Proof. intros H. unfold finish_opd. destruct keep; cbn [fst]; defl; rewrite H; reflexivity. Qed.
 Lemma eval_opd_nolabels E o : forall top r keep, deflabels (fst (eval_opd E top r o keep)) = [].
 Proof.
-  induction o as [z|i|op x IHx y IHy|u x IHx]; intros top r keep; try reflexivity.
+  induction o as [z|i|op x IHx y IHy|u x IHx|g]; intros top r keep; try reflexivity.
   - cbn [eval_opd].
     specialize (IHx top R0 (negb (is_safe y))). destruct (eval_opd E top R0 x (negb (is_safe y))) as [c1 lb].
     specialize (IHy (top_after top lb) R1 false). destruct (eval_opd E (top_after top lb) R1 y false) as [c2 rb].
@@ -166,6 +166,7 @@ Proof.
     pose proof (pop_value_nolabels r b) as P. destruct (pop_value r b) as [c' v].
     cbn [fst] in *. apply finish_opd_nolabels. defl. rewrite IHx, P.
     destruct u; [reflexivity | destruct (is_state_of r v); reflexivity].
+  - cbn [eval_opd]. destruct keep; reflexivity.
 Qed.
 Lemma compare_operands_nolabels E a b : deflabels (fst (fst (compare_operands E a b))) = [].
 Proof.
@@ -387,22 +388,24 @@ Definition bub_of (E : env) (top : Z) (rg : reg) (o : iopd) (keep : bool) : bubb
   match o with
   | OLit z => BuImm z
   | OVar i => BuLocal (int_off E i)
+  | OGlob g => if keep then BuPushed (top + wsize E) else BuReg (RGlob g)
   | _ => if keep then BuPushed (top + wsize E) else BuReg rg
   end.
 Lemma eval_opd_bub E o top rg keep : snd (eval_opd E top rg o keep) = bub_of E top rg o keep.
 Proof.
-  destruct o as [z|i|op x y|u x]; try reflexivity; cbn [eval_opd bub_of].
+  destruct o as [z|i|op x y|u x|g]; try reflexivity; cbn [eval_opd bub_of].
   - destruct (eval_opd E top R0 x (negb (is_safe y))) as [c1 lb].
     destruct (eval_opd E (top_after top lb) R1 y false) as [c2 rb].
     destruct (pop_value R1 rb) as [c2' rhs]. destruct (pop_value R0 lb) as [c3 lhs].
     unfold finish_opd. destruct keep; reflexivity.
   - destruct (eval_opd E top rg x false) as [c b]. destruct (pop_value rg b) as [c' v].
     unfold finish_opd. destruct keep; reflexivity.
+  - destruct keep; reflexivity.
 Qed.
 Lemma top_after_bub E top rg o keep :
   top_after top (bub_of E top rg o keep) = top + Z.of_nat (pushed o keep) * wsize E.
 Proof.
-  unfold pushed. destruct o, keep; cbn [bub_of top_after is_safe andb negb]; change (Z.of_nat 0) with 0; change (Z.of_nat 1) with 1; lia.
+  unfold pushed. destruct o, keep; cbn [bub_of top_after is_safe is_glob andb negb orb]; change (Z.of_nat 0) with 0; change (Z.of_nat 1) with 1; lia.
 Qed.
 Lemma room_le (a b : nat) (wd X : Z) : 0 <= wd -> (a <= b)%nat -> Z.of_nat b * wd <= X -> Z.of_nat a * wd <= X.
 Proof. intros Hw L H. assert (Z.of_nat a * wd <= Z.of_nat b * wd) by (apply Z.mul_le_mono_nonneg_r; lia). lia. Qed.
@@ -437,6 +440,7 @@ Fixpoint sval (m : mem) (o : iopd) : Z :=
   | OArith op x y => sgn (wrap (arith_sem op (sval m x) (sval m y)))
   | OUn UNeg x => sgn (wrap (- sval m x))
   | OUn UPos x => sval m x
+  | OGlob g => sgn (lw m (a_glob R g))
   end.
 Definition bval (m : mem) (j : nat) : Z := lb m (FP m - bool_off E j).
 Fixpoint beval (m : mem) (e : bexpr) : bool :=
@@ -456,6 +460,7 @@ Definition wval (m : mem) (o : iopd) : Z :=
   | OArith op x y => wrap (arith_sem op (sval m x) (sval m y))
   | OUn UNeg x => wrap (- sval m x)
   | OUn UPos x => wrap (sval m x)
+  | OGlob g => lw m (a_glob R g)
   end.
 
 (* MEMORY EFFECT of the lowered operand code, as a function (mirrors eval_opd) *)
@@ -466,6 +471,7 @@ Definition push_mem (keep : bool) (top : Z) (rg : reg) (m : mem) : mem :=
 Fixpoint eval_mem (top : Z) (rg : reg) (o : iopd) (keep : bool) (m : mem) : mem :=
   match o with
   | OLit _ | OVar _ => m
+  | OGlob g => if keep then sw m (FP m - (top + w)) (lw m (a_glob R g)) else m
   | OArith op x y =>
       let kx := negb (is_safe y) in
       let bx := bub_of E top R0 x kx in
@@ -481,6 +487,7 @@ Fixpoint eval_mem (top : Z) (rg : reg) (o : iopd) (keep : bool) (m : mem) : mem 
       push_mem keep top rg
         match u, x with
         | UPos, OLit z => sw m2 (ra rg) (wrap z)            (* mov [rg], z *)
+        | UPos, OGlob g => sw m2 (ra rg) (lw m2 (a_glob R g))   (* mov [rg], [var_g] *)
         | UPos, _ => m2                                     (* already in [rg]: no instruction *)
         | UNeg, _ => sw m2 (ra rg) (wval m (OUn UNeg x))
         end
@@ -560,12 +567,16 @@ Definition slot_ok (hi : Z) (m : mem) (off n : Z) : Prop :=
   0 < off <= W / 2 /\ 0 <= FP m - off /\ inb m (FP m - off) n = true /\ dj hi (FP m - off) n.
 (* F_proved for operands: everything in F_model (`/` and `%` are outside F_model) *)
 Definition op_ok (op : src_arith) : Prop := match op with SAdd | SSub | SMul => True | _ => False end.
+(* the word of an int global: in the state section, away from the registers and the stack area *)
+Definition gword_ok (hi : Z) (m : mem) (g : nat) : Prop :=
+  0 <= a_glob R g /\ inb m (a_glob R g) w = true /\ dj hi (a_glob R g) w.
 Fixpoint oexp_ok (hi : Z) (m : mem) (o : iopd) : Prop :=
   match o with
   | OLit z => - (W / 2) <= z < W / 2
   | OVar i => slot_ok hi m (int_off E i) w
   | OArith op x y => op_ok op /\ oexp_ok hi m x /\ oexp_ok hi m y
   | OUn _ x => oexp_ok hi m x
+  | OGlob g => gword_ok hi m g
   end.
 (* the stack top of the expression being lowered *)
 Definition HI (m : mem) : Z := FP m - stack_top E.
@@ -642,47 +653,52 @@ Lemma slot_ok_mono hi hi' m off n : hi' <= hi -> slot_ok hi m off n -> slot_ok h
 Proof. intros L [H1 [H2 [H3 H4]]]. unfold slot_ok. pose proof (dj_mono hi hi' _ _ L H4). tauto. Qed.
 Lemma oexp_ok_agree hi hi' m m' o : regs_ok m -> agree hi' m m' -> oexp_ok hi m o -> oexp_ok hi m' o.
 Proof.
-  intros L A. induction o as [z|i|op x IHx y IHy|u x IHx]; cbn [oexp_ok]; try tauto.
-  apply (slot_ok_agree hi hi'); assumption.
+  intros L A. induction o as [z|i|op x IHx y IHy|u x IHx|g]; cbn [oexp_ok]; try tauto.
+  - apply (slot_ok_agree hi hi'); assumption.
+  - unfold gword_ok. rewrite (agree_inb hi' m m' _ _ A). tauto.
 Qed.
 Lemma oexp_ok_mono hi hi' m o : hi' <= hi -> oexp_ok hi m o -> oexp_ok hi' m o.
 Proof.
-  intros L. induction o as [z|i|op x IHx y IHy|u x IHx]; cbn [oexp_ok]; try tauto.
-  apply slot_ok_mono; assumption.
+  intros L. induction o as [z|i|op x IHx y IHy|u x IHx|g]; cbn [oexp_ok]; try tauto.
+  - apply slot_ok_mono; assumption.
+  - unfold gword_ok. intros [H1 [H2 H3]]. pose proof (dj_mono hi hi' _ _ L H3). tauto.
 Qed.
 Lemma sval_agree hi m m' o : regs_ok m -> agree hi m m' -> oexp_ok hi m o -> sval m' o = sval m o.
 Proof.
-  intros L A. induction o as [z|i|op x IHx y IHy|u x IHx]; cbn [sval oexp_ok].
+  intros L A. induction o as [z|i|op x IHx y IHy|u x IHx|g]; cbn [sval oexp_ok].
   - reflexivity.
   - intros [H1 [H2 [H3 H4]]]. rewrite (FP_agree hi m m' L A). f_equal. apply (agree_lw hi); assumption.
   - intros [_ [Hx Hy]]. now rewrite IHx, IHy.
   - intros Hx. destruct u; now rewrite IHx.
+  - intros [H1 [H2 H3]]. f_equal. apply (agree_lw hi); assumption.
 Qed.
 Lemma wval_agree hi m m' o : regs_ok m -> agree hi m m' -> oexp_ok hi m o -> wval m' o = wval m o.
 Proof.
-  intros L A. destruct o as [z|i|op x y|u x]; cbn [wval oexp_ok].
+  intros L A. destruct o as [z|i|op x y|u x|g]; cbn [wval oexp_ok].
   - reflexivity.
   - intros [H1 [H2 [H3 H4]]]. rewrite (FP_agree hi m m' L A). apply (agree_lw hi); assumption.
   - intros [_ [Hx Hy]]. now rewrite (sval_agree hi m m' x L A Hx), (sval_agree hi m m' y L A Hy).
   - intros Hx. destruct u; now rewrite (sval_agree hi m m' x L A Hx).
+  - intros [H1 [H2 H3]]. apply (agree_lw hi); assumption.
 Qed.
 (* values are words, and their signed reading is the source value *)
 Lemma wval_range m o : wf_mem m -> inrange w (wval m o).
 Proof.
-  intros Wf. destruct o as [z|i|op x y|[|] x]; cbn [wval]; try (apply wrap_range; exact Hw1).
+  intros Wf. destruct o as [z|i|op x y|[|] x|g]; cbn [wval]; try (apply wrap_range; exact Hw1);
   apply (lw_range w Hw1); exact Wf.
 Qed.
 Lemma sval_range hi m o : wf_mem m -> oexp_ok hi m o -> - (W / 2) <= sval m o < W / 2.
 Proof.
-  intros Wf. induction o as [z|i|op x IHx y IHy|u x IHx]; cbn [sval oexp_ok]; intros O.
+  intros Wf. induction o as [z|i|op x IHx y IHy|u x IHx|g]; cbn [sval oexp_ok]; intros O.
   - exact O.
   - apply (sgn_range w Hw1). apply (lw_range w Hw1); exact Wf.
   - apply (sgn_range w Hw1). apply wrap_range; exact Hw1.
   - destruct u; [apply (sgn_range w Hw1); apply wrap_range; exact Hw1 | apply IHx; exact O].
+  - apply (sgn_range w Hw1). apply (lw_range w Hw1); exact Wf.
 Qed.
 Lemma sgn_wval hi m o : wf_mem m -> oexp_ok hi m o -> sgn (wval m o) = sval m o.
 Proof.
-  intros Wf O. destruct o as [z|i|op x y|[|] x]; cbn [wval sval oexp_ok] in *; try reflexivity.
+  intros Wf O. destruct o as [z|i|op x y|[|] x|g]; cbn [wval sval oexp_ok] in *; try reflexivity.
   - apply (sgn_wrap_small w Hw1); exact O.
   - apply (sgn_wrap_small w Hw1). apply (sval_range hi); assumption.
 Qed.
@@ -741,7 +757,7 @@ Definition bub_ok (hi : Z) (m : mem) (b : bubble) : Prop :=
   match b with
   | BuImm _ => True
   | BuLocal off | BuPushed off => slot_ok hi m off w
-  | BuReg r => r = R0 \/ r = R1
+  | BuReg r => r = R0 \/ r = R1 \/ match r with RGlob g => gword_ok hi m g | _ => False end
   end.
 Definition resident (b : bubble) : bool := match b with BuReg _ => false | _ => true end.
 Definition sym_of (r : reg) (b : bubble) : sym := snd (pop_value r b).
@@ -766,14 +782,20 @@ Lemma bub_of_ok top rg o keep m : rg = R0 \/ rg = R1 -> regs_ok m -> room_ok top
   bub_ok (FP m - top_after top (bub_of E top rg o keep)) m (bub_of E top rg o keep).
 Proof.
   intros Hr L Ro O P. unfold pushed in P.
-  destruct o as [z|i|op x y|u x]; cbn [bub_of top_after bub_ok is_safe negb andb] in *; try exact I; try exact O;
-    rewrite HwE; destruct keep; cbn [top_after bub_ok andb] in *; try exact Hr;
+  destruct o as [z|i|op x y|u x|g]; cbn [bub_of top_after bub_ok is_safe is_glob negb andb orb] in *; try exact I; try exact O;
+    rewrite ?HwE; destruct keep; cbn [top_after bub_ok andb orb] in *; try (destruct Hr; auto; fail); try (right; right; exact O);
     apply pushed_slot_ok; try assumption; change (Z.of_nat 1) with 1 in P; lia.
 Qed.
 Lemma bub_ok_agree hi hi' m m' b : regs_ok m -> agree hi' m m' -> bub_ok hi m b -> bub_ok hi m' b.
-Proof. intros L A. destruct b; cbn [bub_ok]; auto; apply (slot_ok_agree hi hi'); assumption. Qed.
+Proof.
+  intros L A. destruct b as [z|off|r|off]; cbn [bub_ok]; auto; try (apply (slot_ok_agree hi hi'); assumption).
+  intros [H|[H|H]]; auto. right; right. destruct r; auto. unfold gword_ok in *. rewrite (agree_inb hi' m m' _ _ A). exact H.
+Qed.
 Lemma bub_ok_mono hi hi' m b : hi' <= hi -> bub_ok hi m b -> bub_ok hi' m b.
-Proof. intros L. destruct b; cbn [bub_ok]; auto; apply slot_ok_mono; assumption. Qed.
+Proof.
+  intros L. destruct b as [z|off|r|off]; cbn [bub_ok]; auto; try (apply slot_ok_mono; assumption).
+  intros [H|[H|H]]; auto. right; right. destruct r; auto. destruct H as [H1 [H2 H3]]. pose proof (dj_mono hi hi' _ _ L H3). unfold gword_ok. tauto.
+Qed.
 Lemma bub_val_agree hi m m' b : regs_ok m -> agree hi m m' -> resident b = true -> bub_ok hi m b ->
   bub_val m' b = bub_val m b.
 Proof.
@@ -937,7 +959,8 @@ Proof.
   - destruct (Mem off B) as [A [S C]]. split; [exact A|]. split; [exact S|].
     intros c s p F P. inversion F; subst. cbn [size]. apply C. exact P.
   - split; [apply agree_refl|]. split.
-    + cbn [symval]. assert (I' : inb m (ra r') w = true) by (destruct L, B; subst r'; cbn [regaddr]; assumption).
+    + cbn [symval]. assert (I' : inb m (ra r') w = true).
+      { destruct B as [->|[->|B]]; [apply (lo_i0 m L) | apply (lo_i1 m L)|]. destruct r'; try contradiction. apply B. }
       now rewrite I'.
     + intros c s p F P. inversion F; subst. cbn [size]. replace (p + 0) with p by lia. apply runs_refl.
   - destruct (Mem off B) as [A [S C]]. split; [exact A|]. split; [exact S|].
@@ -945,19 +968,21 @@ Proof.
 Qed.
 (* a symbol that is not the register written by a pop keeps its value *)
 Lemma symval_pop_other r b m s : regs_ok m -> r = R0 \/ r = R1 ->
-  match s with SReg r' => (r' = R0 \/ r' = R1) /\ r' <> r | _ => True end ->
+  match s with SReg r' => 0 <= ra r' /\ (ra r' + w <= ra r \/ ra r + w <= ra r') | _ => True end ->
   symval (pop_mem r b m) s = symval m s.
 Proof.
   intros L Hr Hs. destruct s as [z|r'|l|c|r'|x]; cbn [symval]; try reflexivity.
   rewrite inb_pop. destruct Hs as [Hr' Ne].
   rewrite lw_pop_other; [reflexivity | | |].
   - destruct L, Hr; subst r; cbn [regaddr]; assumption.
-  - destruct L, Hr'; subst r'; cbn [regaddr]; assumption.
-  - destruct L, Hr, Hr'; subst r r'; cbn [regaddr]; try congruence; lia.
+  - exact Hr'.
+  - exact Ne.
 Qed.
 Lemma sym_of_bub_of rg top o keep : rg = R0 \/ rg = R1 ->
-  match sym_of rg (bub_of E top rg o keep) with SReg r' => r' = rg | SLit _ => True | _ => False end.
-Proof. intros _. destruct o, keep; cbn; auto. Qed.
+  match sym_of rg (bub_of E top rg o keep) with
+  | SReg r' => r' = rg \/ exists g, r' = RGlob g /\ o = OGlob g /\ keep = false
+  | SLit _ => True | _ => False end.
+Proof. intros _. destruct o, keep; cbn; eauto. Qed.
 
 (* ---------- operands: eval_opd ---------- *)
 (* what holds of the lowering of one operand: frame condition, the value is where the bubble
@@ -971,10 +996,10 @@ Definition eval_spec (o : iopd) : Prop := forall top rg keep m,
   forall c bub p, eval_opd E top rg o keep = (c, bub) -> plc c p ->
     runs (mk p m) [] (mk (p + size c) m').
 
-Lemma eval_mem_safe top rg o keep m : is_safe o = true -> eval_mem top rg o keep m = m.
-Proof. destruct o; try discriminate; reflexivity. Qed.
+Lemma eval_mem_safe top rg o keep m : is_safe o = true -> is_glob o && keep = false -> eval_mem top rg o keep m = m.
+Proof. destruct o, keep; try discriminate; reflexivity. Qed.
 Lemma temps_pushed o keep : (pushed o keep <= temps o keep)%nat.
-Proof. unfold pushed. destruct o, keep; cbn [is_safe negb andb temps]; lia. Qed.
+Proof. unfold pushed. destruct o, keep; cbn [is_safe is_glob negb andb orb temps]; lia. Qed.
 
 Lemma pair_props x y : eval_spec x -> eval_spec y -> forall top m,
   regs_ok m -> room_ok top m -> oexp_ok (FP m - top) m x -> oexp_ok (FP m - top) m y ->
@@ -1027,7 +1052,7 @@ Proof.
     - (* the left value is in r0: the right operand is safe and its evaluation emits nothing *)
       assert (Sfy : is_safe y = true).
       { unfold bx, kx in Rb. destruct x; cbn [bub_of resident] in Rb; try discriminate; destruct (is_safe y); first [reflexivity | discriminate]. }
-      unfold m2. now rewrite (eval_mem_safe _ _ y _ _ Sfy). }
+      unfold m2. now rewrite (eval_mem_safe _ _ y _ _ Sfy (andb_false_r _)). }
   assert (By2 : bub_ok (FP m2 - top1) m2 by_).
   { pose proof (bub_of_ok top1 R1 y false m2 (or_intror eq_refl) L2 (room_ok_agree _ top1 m1 m2 L1 A2 Ro1')) as B.
     rewrite top_after_bub in B. unfold pushed in B. cbn [andb] in B. change (Z.of_nat 0) with 0 in B.
@@ -1044,16 +1069,23 @@ Proof.
   assert (Vx3 : bub_val m3 bx = wval m x).
   { rewrite <- Vx2. destruct (resident bx) eqn:Rb.
     - apply (bub_val_agree lo); [exact L2 | exact A3 | exact Rb |]. apply (bub_ok_mono (FP m1 - top1)); assumption.
-    - assert (Eb : bx = BuReg R0).
-      { unfold bx in *. destruct x; cbn [bub_of resident] in Rb |- *; try discriminate; destruct kx; first [discriminate | reflexivity]. }
-      rewrite Eb. cbn [bub_val regaddr]. unfold m3. apply lw_pop_other; cbn [regaddr]; destruct L2; try assumption; lia. }
+    - assert (Eb : bx = BuReg R0 \/ exists g, bx = BuReg (RGlob g)).
+      { unfold bx in *. destruct x; cbn [bub_of resident] in Rb |- *; try discriminate; destruct kx; first [discriminate | left; reflexivity | right; eexists; reflexivity]. }
+      destruct Eb as [Eb | [g Eb]]; rewrite Eb in *; cbn [bub_val regaddr]; unfold m3.
+      + apply lw_pop_other; cbn [regaddr]; destruct L2; try assumption; lia.
+      + cbn [bub_ok] in Bx2. destruct Bx2 as [Q|[Q|[G0 [G1 [G2 [G3 G4]]]]]]; try discriminate Q.
+        apply lw_pop_other; cbn [regaddr]; [apply (lo_r1 m2 L2) | exact G0 | lia]. }
   (* pop left into r0 *)
   destruct (pop_props R0 bx _ m3 (or_introl eq_refl) L3 Bx3) as [A4 [S4 C4]].
   assert (Em : m' = pop_mem R0 bx m3) by reflexivity.
   assert (S3' : symval m' (sym_of R1 by_) = Some (wval m y)).
   { rewrite Em, symval_pop_other; [rewrite S3, V2'; reflexivity | exact L3 | left; reflexivity |].
     pose proof (sym_of_bub_of R1 top1 y false (or_intror eq_refl)) as Q. fold by_ in Q.
-    destruct (sym_of R1 by_); [exact I | subst; split; [right; reflexivity | discriminate] | destruct Q | exact I | exact I | exact I]. }
+    destruct (sym_of R1 by_) as [z|r'|l|c|r'|x0] eqn:Esy; [exact I | | destruct Q | exact I | exact I | exact I].
+    destruct Q as [-> | [g [-> [Ey _]]]]; cbn [regaddr].
+    - destruct L3; lia.
+    - assert (Eby : by_ = BuReg (RGlob g)) by (unfold by_; rewrite Ey; reflexivity).
+      rewrite Eby in By2. cbn [bub_ok] in By2. destruct By2 as [Q|[Q|[G0 [G1 [G2 _]]]]]; try discriminate Q. split; [exact G0 | lia]. }
   assert (Ag : agree (FP m - top) m m').
   { eapply agree_trans; [exact A1|]. eapply agree_trans; [apply (agree_mono (FP m1 - top1)); [rewrite F1; lia | exact A2]|].
     eapply agree_trans; [apply (agree_mono lo); [lia | exact A3]|]. rewrite Em. apply (agree_mono lo); [lia | exact A4]. }
@@ -1109,7 +1141,7 @@ Proof.
   - split; [exact A5|]. split; [reflexivity|]. intros p _. replace (p + 0) with p by lia. apply runs_refl.
 Qed.
 Lemma reg_eqb_refl r : reg_eqb r r = true.
-Proof. destruct r; reflexivity. Qed.
+Proof. destruct r; try reflexivity. apply Nat.eqb_refl. Qed.
 
 Ltac szn := repeat progress (rewrite ?size_app; cbn [size goto]).
 Ltac szn_in H := repeat progress (rewrite ?size_app in H; cbn [size goto] in H).
@@ -1124,7 +1156,7 @@ Ltac close_with G :=
 
 Theorem eval_opd_props o : eval_spec o.
 Proof.
-  induction o as [z|i|op x IHx y IHy|u x IHx]; intros top rg keep m Hr L Ro O T m'.
+  induction o as [z|i|op x IHx y IHy|u x IHx|g]; intros top rg keep m Hr L Ro O T m'.
   - (* literal *)
     split; [apply agree_refl|]. split; [reflexivity|]. intros c bub p Ev _. cbn [eval_opd] in Ev. inversion Ev; subst.
     cbn [size]. replace (p + 0) with p by lia. apply runs_refl.
@@ -1197,7 +1229,7 @@ Proof.
     assert (Ir : 0 <= ra rg /\ inb m2 (ra rg) w = true) by (destruct L2, Hr; subst rg; cbn [regaddr]; split; assumption).
     destruct Ir as [Ir0 Ir1].
     set (o := OUn u x).
-    set (m3 := match u, x with UPos, OLit z => sw m2 (ra rg) (wrap z) | UPos, _ => m2 | UNeg, _ => sw m2 (ra rg) (wval m (OUn UNeg x)) end).
+    set (m3 := match u, x with UPos, OLit z => sw m2 (ra rg) (wrap z) | UPos, OGlob g => sw m2 (ra rg) (lw m2 (a_glob R g)) | UPos, _ => m2 | UNeg, _ => sw m2 (ra rg) (wval m (OUn UNeg x)) end).
     change m' with (push_mem keep top rg m3).
     set (ucode := match u with UNeg => [AInstr (AArith Asub rg (SLit 0) (sym_of rg b))]
                            | UPos => if is_state_of rg (sym_of rg b) then [] else [AInstr (AMov rg (sym_of rg b))] end).
@@ -1224,7 +1256,7 @@ Proof.
       - (* pos *)
         assert (Vp : wval m o = wval m x).
         { unfold o. cbn [wval]. rewrite <- (sgn_wval _ m x (lo_wf m L) O). apply (wrap_sgn w Hw1). exact Rx. }
-        destruct x as [z|i|op' x1 x2|u' x1].
+        destruct x as [z|i|op' x1 x2|u' x1|g].
         + (* a literal: `mov [rg], z` *)
           unfold m3, ucode, b. cbn [bub_of sym_of pop_value snd is_state_of].
           split; [apply Asw|]. split.
@@ -1243,7 +1275,17 @@ Proof.
         + unfold m3, ucode, b in *. cbn [bub_of sym_of pop_value snd is_state_of] in *. rewrite reg_eqb_refl.
           split; [exact A12|]. split.
           * rewrite Vp. cbn [symval] in S2. rewrite Ir1 in S2. injection S2 as S2'. exact S2'.
-          * intros q _. cbn [size]. replace (q + 0) with q by lia. apply runs_refl. }
+          * intros q _. cbn [size]. replace (q + 0) with q by lia. apply runs_refl.
+        + (* a global: `mov [rg], [var_g]` *)
+          unfold m3, ucode, b in *. cbn [bub_of sym_of pop_value snd is_state_of] in *.
+          assert (Er : reg_eqb rg (RGlob g) = false) by (destruct Hr; subst; reflexivity). rewrite Er.
+          assert (Vg : inb m2 (a_glob R g) w = true /\ lw m2 (a_glob R g) = wval m (OGlob g)).
+          { cbn [symval regaddr] in S2. destruct (inb m2 (a_glob R g) w) eqn:Ei; [|discriminate S2]. split; [reflexivity | congruence]. }
+          destruct Vg as [Ig Vg]. split; [apply Asw|]. split.
+          * rewrite (lw_sw_same w Hw1) by exact Ir0. rewrite Vp, Vg. apply (wrap_small w). exact Rx.
+          * intros q Pq. cbn [plc res_ins res_sym regaddr] in Pq. destruct Pq as [Cq _].
+            pose proof (act_mov w code cmem q m2 (ra rg) (St (a_glob R g)) _ Cq (oval_st w cmem m2 _ Ig) Ir1) as Am.
+            cbn [size]. replace (q + (1 + 0)) with (q + 1) by lia. apply (runs_next act _ _ None Am). }
     destruct U as [A3 [V3 C3]].
     destruct (push_props top rg keep m m3 Hr L Ro A3 Hk) as [A6 [V6 C6]].
     split; [exact A6|]. split.
@@ -1264,6 +1306,24 @@ Proof.
     rewrite size_app in Pu. replace (p + (size c1 + size c2)) with (p + size c1 + size c2) in Pu by lia.
     eapply runs_trans; [apply (C3 _ Pu)|].
     pose proof (C6 _ P6) as G. close_with G.
+  - (* an int global: its own word, or a copy pushed on the frame *)
+    cbn [oexp_ok temps] in O, T. destruct O as [G0 [G1 G2]]. unfold m'. destruct keep; cbn [eval_mem bub_of eval_opd].
+    + change (Z.of_nat 1) with 1 in T.
+      destruct (pushed_slot_ok top m L Ro ltac:(lia)) as [O1 [O2 [O3 O4]]].
+      set (a := FP m - (top + w)) in *. set (z := lw m (a_glob R g)).
+      assert (As : agree (FP m - top) m (sw m a z)).
+      { apply agree_sw; [exact O2|]. right. right. unfold a. destruct Ro. lia. }
+      split; [exact As|]. split.
+      * rewrite HwE. cbn [bub_val]. rewrite (FP_agree _ m _ L As). fold a. rewrite (lw_sw_same w Hw1) by exact O2.
+        apply (wrap_small w). apply (lw_range w Hw1). apply (lo_wf m L).
+      * intros c bub p Ev P. inversion Ev; subst c bub; clear Ev. rewrite HwE in P.
+        cbn [plc res_ins res_sym regaddr] in P. destruct P as [C _].
+        pose proof (act_swso w code cmem p m (St fp) (Imm (- (top + w))) (St (a_glob R g)) (FP m) (wrap (- (top + w))) z C
+                      (oval_st w cmem m fp (lo_if m L)) (oval_imm w cmem m _) (oval_st w cmem m _ G1)) as A.
+        rewrite (frame_addr m _ L O1) in A. fold a in A. specialize (A O3).
+        cbn [size]. replace (p + (1 + 0)) with (p + 1) by lia. apply (runs_next act _ _ None A).
+    + split; [apply agree_refl|]. split; [reflexivity|]. intros c bub p Ev _. inversion Ev; subst.
+      cbn [size]. replace (p + 0) with p by lia. apply runs_refl.
 Qed.
 
 (* ---------- comparison operands ---------- *)
@@ -2269,7 +2329,7 @@ Proof.
         pose proof (zmul_mono 1 M ws ltac:(lia) HM). unfold T. lia.
       + intros [I|[_ ->]]; apply in_or_app; [left; exact I | right; left; unfold T; lia].
     - split; [exact F|]. intros [I|[X _]]; [exact I | discriminate]. }
-  induction o as [z|i|op x IHx y IHy|u x IHx]; intros top r keep offs T.
+  induction o as [z|i|op x IHx y IHy|u x IHx|g]; intros top r keep offs T.
   - split; [constructor | intros H; exfalso; apply H; reflexivity].
   - split; [constructor | intros H; exfalso; apply H; reflexivity].
   - unfold offs, T. cbn [eval_opd temps]. set (kx := negb (is_safe y)).
@@ -2283,7 +2343,7 @@ Proof.
     set (tx := temps x kx) in *. set (ty := temps y false) in *.
     set (k := if keep then 1%nat else 0%nat).
     set (M := Nat.max (Nat.max tx (d + ty)) k).
-    assert (Hd : (d <= tx)%nat) by (unfold d, tx, pushed; destruct x, kx; cbn [is_safe negb andb temps]; lia).
+    assert (Hd : (d <= tx)%nat) by (unfold d, tx, pushed; destruct x, kx; cbn [is_safe is_glob negb andb orb temps]; lia).
     assert (E2 : Z.of_nat (d + ty) * ws = Z.of_nat d * ws + Z.of_nat ty * ws) by (rewrite Nat2Z.inj_add; ring).
     pose proof (zmul_mono tx M ws ltac:(lia) ltac:(unfold M; lia)) as L1.
     pose proof (zmul_mono (d + ty) M ws ltac:(lia) ltac:(unfold M; lia)) as L2.
@@ -2321,6 +2381,9 @@ Proof.
     + split; [exact F1|]. intros NM. apply F2.
       assert (Cs : M = tx \/ (keep = true /\ M = 1%nat)) by (unfold M, k in *; destruct keep; lia).
       destruct Cs as [Cs|Cs]; [left; rewrite So, Cs; apply Tx; lia | right; exact Cs].
+  - subst offs T. destruct keep; cbn [eval_opd fst store_offs temps]; fold ws.
+    + change (Z.of_nat 1) with 1. split; [constructor; [lia | constructor] | intros _; left; lia].
+    + split; [constructor | intros N; contradiction N; reflexivity].
 Qed.
 
 (* ================================================================================= *)
